@@ -635,6 +635,27 @@ func runC12(r *RunCtx) error {
 		h.e.Close()
 	}
 
+	// ---- history 2 (deterministic): a busy chain, more live gauges than one page of any listing holds
+	{
+		h, err := c12NewHist(r, 1_000_002)
+		if err != nil {
+			return err
+		}
+		h.txBlock(6 * time.Second)
+		end := h.now.Add(3000 * time.Second)
+		for i := 0; i < 125; i++ {
+			if i%32 == 31 {
+				h.txBlock(6 * time.Second)
+			}
+			h.direct(sdk.NewCoins(sdk.NewInt64Coin("ujkl", int64(1_000_000+i))), end.Add(time.Duration(i)*time.Second))
+		}
+		h.reward(h.now.Add(500 * time.Second))
+		h.reward(h.now.Add(700 * time.Second))
+		h.reward(end.Add(60 * time.Second))
+		h.reward(end.Add(200 * time.Second))
+		h.e.Close()
+	}
+
 	amounts := []int64{1, 2, 3, 7, 999, 13_999, 1_000_000, 1_000_000_007, 1_000_000_000_001, 1_000_000_000_000_000, 999_999_999_999_999_999, 1_000_000_000_000_000_000, 9_000_000_000_000_000_000}
 	durs := []time.Duration{999, 1000, 1001, 10_000, 12_345_678, time.Second, 997 * time.Second, time.Hour, day, 30 * day, 365 * day, 1<<63 - 1, 0, -5}
 	denoms := []string{"uatom", "ujkl", "uusdc"}
